@@ -1,5 +1,6 @@
 """C16 (and later C17, C11): schedule-quantified properties decided with small
 TLA+ machines whose behaviours are forced on the real goroutines with gates."""
+import time
 import json, os
 import vlib
 from vlib import log, Check, SEED
@@ -368,6 +369,50 @@ CHECK_DEADLOCK FALSE
 ''' % (spec, l, r, 'TRUE' if elseif else 'FALSE', 'TRUE' if atomic else 'FALSE', invs, ('PROPERTIES ' + props) if props else ''))
 
 
+def apalache_status(ck):
+    """spec/StatusInd.tla: the arithmetic of Status.tla with type annotations. Apalache checks that IndInv holds initially, is
+    preserved by every action from ANY state satisfying it (so for any number of local writes, remote chains of up to 8
+    entries), and that no action lowers the maximum or the progress from such a state; the variant in which a write may fall
+    between the reads and the set of a recalculation must not pass (vacuity guard)."""
+    import subprocess, shutil, tempfile
+    d = tempfile.mkdtemp(prefix='apalache-', dir=vlib.WORK)
+    try:
+        src = open(os.path.join(vlib.ROOT, 'spec', 'StatusInd.tla')).read()
+        open(os.path.join(d, 'StatusInd.tla'), 'w').write(src)
+        mut = src.replace('MODULE StatusInd ', 'MODULE StatusIndMut ').replace('Write == /\\ pend = 0\n', 'Write == /\\ TRUE\n')
+        open(os.path.join(d, 'StatusIndMut.tla'), 'w').write(mut)
+
+        def run(module, init, inv, length):
+            t0 = time.time()
+            try:
+                p = subprocess.run(['apalache-mc', 'check', '--cinit=ConstInit', '--init=' + init, '--inv=' + inv, '--length=%d' % length, module + '.tla'],
+                                   cwd=d, capture_output=True, text=True, timeout=600)
+            except Exception as e:
+                return None, str(e), time.time() - t0
+            out = p.stdout + p.stderr
+            if 'EXITCODE: OK' in out:
+                return True, out, time.time() - t0
+            if 'violated' in out or 'EXITCODE: ERROR (12)' in out:
+                return False, out, time.time() - t0
+            return None, out[-400:], time.time() - t0
+        results = []
+        for what, module, init, inv, length, want in [
+                ('Init => IndInv', 'StatusInd', 'Init', 'IndInv', 0, True),
+                ('IndInv /\\ Next => IndInv\'', 'StatusInd', 'IndInit', 'IndInv', 1, True),
+                ('IndInv /\\ Next => max\' >= max /\\ prog\' >= prog', 'StatusInd', 'IndInit', 'Monotone', 1, True),
+                ('two-step recalculation: IndInv is not inductive (vacuity guard)', 'StatusIndMut', 'IndInit', 'IndInv', 1, False)]:
+            ok, out, wall = run(module, init, inv, length)
+            results.append({'what': what, 'holds': ok, 'wall_s': round(wall, 1)})
+            if ok is None:
+                ck.inconclusive.append('apalache (%s): no verdict: %s' % (what, out[-300:]))
+            elif ok != want:
+                ck.inconclusive.append('apalache (%s): %s on the model' % (what, 'refuted' if want else 'not refuted'))
+        ck.extra['apalache_inductive_invariant'] = results
+        log('  Apalache StatusInd: %s' % ', '.join('%s=%s' % (r['what'].split(':')[0][:28], r['holds']) for r in results))
+    finally:
+        shutil.rmtree(d, ignore_errors=True)
+
+
 def c19(prop, tier):
     ck = Check(prop, tier)
     thorough = tier == 'thorough'
@@ -377,6 +422,7 @@ def c19(prop, tier):
                'with a local write between announcement and join')
     r = vlib.tlc_check('Status.tla', st_cfg('Status.small.cfg', 'Spec', 6 if thorough else 4, 6 if thorough else 4, False), 'C19-small')
     ck.require_model_ok(r, 'Status arithmetic and flows')
+    apalache_status(ck)
     m = vlib.tlc_check('SimStatus.tla', st_cfg('Status.mutant.cfg', 'SimSpec', 3, 4, True, invs='ProgLeMax'), 'C19-mutant')
     ck.add_tlc(m, 'Status with else-if (mutant specification)')
     bs = []
